@@ -344,8 +344,8 @@ class TermAnalysis(Analysis):
             if va == vb:
                 env[k] = va
             else:
-                va = va if va is not None else ("top", f"unbound {k}")
-                vb = vb if vb is not None else ("top", f"unbound {k}")
+                va = va if va is not None else self._unbound(k)
+                vb = vb if vb is not None else self._unbound(k)
                 env[k] = ("ite", gate_c, va, vb) if gate_truth else ("ite", gate_c, vb, va)
         pc = prefix
         complementary = (len(ra) == 1 and len(rb) == 1 and ra[0][0] == rb[0][0] and ra[0][1] != rb[0][1])
@@ -355,8 +355,25 @@ class TermAnalysis(Analysis):
             # one side has no extra condition: the merged condition is just the prefix
         return State(env, pc)
 
+    def _unbound(self, k: str) -> Term:
+        """Value of an environment key one branch did not assign: an attribute of a parameter keeps the value it had on entry."""
+        if k.count(".") == 1:
+            base, name = k.split(".")
+            if base in self.param_names:
+                return ("attr", ("param", base), name)
+        return ("top", f"unbound {k}")
+
     def leq(self, a, b):
         return a == b
+
+    def raise_name(self, s, st):
+        # `raise error(...)` where `error` holds a class (an exception class passed into a helper)
+        e = s.exc.func if isinstance(s.exc, ast.Call) else s.exc
+        if isinstance(e, ast.Name) and e.id in st.env:
+            v = st.env[e.id]
+            if v[0] == "global" and v[1] in self.prog.classes:
+                return v[1]
+        return None
 
     engine = None
 
@@ -462,6 +479,13 @@ class TermAnalysis(Analysis):
         if isinstance(target, ast.Name):
             st.env[target.id] = value
             self.terms_at[target] = value
+            ro = getattr(self, "_returned_obj", None)
+            if ro is not None and ro[0] == value:
+                for k in [k for k in st.env if k.startswith(target.id + ".")]:
+                    del st.env[k]
+                for a, v in ro[1].items():
+                    st.env[f"{target.id}.{a}"] = v
+                self._returned_obj = None
         elif isinstance(target, (ast.Tuple, ast.List)):
             if value[0] in ("tuple", "list") and len(value[1]) == len(target.elts):
                 for t, v in zip(target.elts, value[1]):
@@ -676,6 +700,11 @@ class TermAnalysis(Analysis):
                 step = self.ev(e.slice.step, st) if e.slice.step else None
                 return ("slice", base, lo, hi, step)
             idx = self.ev(e.slice, st)
+            if is_const(idx) and isinstance(idx[1], slice):
+                # x[NAMED_SLICE] with NAMED_SLICE = slice(a, b[, c]) is x[a:b:c]
+                sl = idx[1]
+                return ("slice", base, None if sl.start is None else const(sl.start), None if sl.stop is None else const(sl.stop),
+                        None if sl.step is None else const(sl.step))
             if base[0] in ("tuple", "list") and is_const(idx) and isinstance(idx[1], int) and -len(base[1]) <= idx[1] < len(base[1]):
                 return base[1][idx[1]]
             if is_const(idx) and isinstance(idx[1], int):
@@ -793,6 +822,10 @@ class TermAnalysis(Analysis):
             return const(len(t[2][0][1]))
         if t[0] == "call" and t[1] == ("ext", "len") and len(t[2]) == 1 and not t[3] and is_const(t[2][0]) and isinstance(t[2][0][1], (bytes, str)):
             return const(len(t[2][0][1]))
+        if t[0] == "call" and t[1] == ("ext", "int") and len(t[2]) == 1 and len(t[3]) == 1 and t[3][0][0] == "base":
+            return ("call", t[1], (t[2][0], t[3][0][1]), ())                # int(x, base=b) is int(x, b)
+        if t[0] == "call" and t[1] == ("ext", "dict") and not t[2] and t[3] and all(isinstance(k, str) for k, _v in t[3]):
+            return ("dict", tuple((const(k), v) for k, v in t[3]))       # dict(a=x) is {"a": x}
         if t[0] == "call" and t[1] == ("ext", "int.from_bytes") and t[3]:
             kw = dict(t[3])
             if "byteorder" in kw and len(t[2]) == 1:
@@ -868,6 +901,14 @@ class TermAnalysis(Analysis):
             common = common[:k]
         self._inl.append(("normal", tuple(common), None))
         value = here(sub.return_term()) if len(rets) > 1 else rets[0][1]
+        # a locally built object that the helper returns keeps the attributes the helper stored on it
+        self._returned_obj = None
+        rnodes = [node for _pc, _tm, node, _r in sub.returns if node is not None]
+        if len(rets) == 1 and len(rnodes) == 1 and isinstance(getattr(rnodes[0], "value", None), ast.Name):
+            rn = rnodes[0].value.id
+            attrs = {k[len(rn) + 1:]: v for k, v in rets[0][2].env.items() if k.startswith(rn + ".") and "." not in k[len(rn) + 1:]}
+            if attrs and rn not in [x.arg for x in pos]:
+                self._returned_obj = (value, attrs)
         # side effects on the receiver / mutated arguments (single or agreeing final environments)
         names = [x.arg for x in pos]
         arg_keys = {}
@@ -1072,8 +1113,16 @@ class Summary:
         if not rets:
             return ("top", "no return")
         out = rets[-1][1]
-        for pc, t in reversed(rets[:-1]):
-            out = ("ite", pc_term(pc), t, out) if t != out else out
+        for i in range(len(rets) - 2, -1, -1):
+            pc, t = rets[i]
+            if t == out:
+                continue
+            gate = pc_term(pc)
+            if any(pc2 == pc for pc2, _t2 in rets[i + 1:]):
+                # another return is reached under the same path condition (an exception handler, typically): which of the
+                # two it is is not a function of the path condition
+                gate = ("bool", "and", (gate, ("top", f"path {i} of {self.fn.qual}")))
+            out = ("ite", gate, t, out)
         return out
 
 
